@@ -448,7 +448,26 @@ class Prover:
     def entails(self, atom) -> bool:
         if self.inconsistent():
             return True
-        return all(self._holds(a) for a in normalize_atom(atom))
+        for a in normalize_atom(atom):
+            if self._holds(a):
+                continue
+            if self.refute(a):
+                continue
+            return False
+        return True
+
+    def refute(self, a) -> bool:
+        """Proof by contradiction for the truth of a *boolean* term: if assuming the opposite is inconsistent, a holds
+        (booleans are two-valued). Used for flags whose value is pinned down only through implications."""
+        if a[0] not in ("truthy", "falsy") or not is_term(a[1]) or not self._is_boolish(self.canon(a[1])):
+            return False
+        key = ("refute", a)
+        memo = self.__dict__.setdefault("_refute_memo", {})
+        if key not in memo:
+            memo[key] = False
+            hyp = Prover.of(frozenset(self.facts | {neg(a)}))
+            memo[key] = hyp.inconsistent()
+        return memo[key]
 
     def _holds(self, atom) -> bool:
         k = atom[0]
@@ -717,7 +736,8 @@ class Analysis:
                 return st.env[e.id]
             q = self.scope.resolve_name(e.id)
             if q:
-                return ("global", q)
+                lit = self.module_literal(q)
+                return lit if lit is not None else ("global", q)
             return ("unbound", e.id)
         if isinstance(e, ast.Tuple):
             return ("tuple", tuple(self.ev(x, st, node, counter, new_facts) for x in e.elts))
@@ -782,6 +802,10 @@ class Analysis:
 
     def ev_call(self, e: ast.Call, st: State, node: Node, counter, new_facts) -> tuple:
         q = self.scope.resolve_call(e)
+        if q is None and isinstance(e.func, ast.Name):
+            ft = st.env.get(e.func.id)
+            if ft is not None and ft[0] == "global" and (ft[1] in self.project.funcs or ft[1] in self.contracts):
+                q = ft[1]        # a local variable bound to a package function (e.g. `for search in (binary_search, descent):`)
         args = [self.ev(a.value if isinstance(a, ast.Starred) else a, st, node, counter, new_facts) for a in e.args]
         kwargs = {k.arg: self.ev(k.value, st, node, counter, new_facts) for k in e.keywords}
 
@@ -829,9 +853,29 @@ class Analysis:
             if q == "cm_colors.core.conversions.oklch_to_rgb_safe":
                 new_facts.append(("valid8", t))   # justified by C10 (every return validated or clamped)
             return t
+        if q in ("builtins.list", "builtins.tuple") and len(args) == 1 and args[0][0] in ("list", "tuple") and not kwargs:
+            return ("list", args[0][1])
         if q.startswith("builtins.") and q in ("builtins.int", "builtins.bool", "builtins.list", "builtins.sorted", "builtins.enumerate", "builtins.isinstance", "builtins.all", "builtins.any"):
             return ("call", q, tuple(args))
         return opq()
+
+    def module_literal(self, q: str):
+        """A module-level list/tuple of numeric literals that no function mutates is a constant of the program."""
+        cache = self.__dict__.setdefault("_modlit", {})
+        if q in cache:
+            return cache[q]
+        cache[q] = None
+        mod, _, nm = q.rpartition(".")
+        m = self.project.modules.get(mod)
+        v = m.top_assigns.get(nm) if m else None
+        if isinstance(v, (ast.List, ast.Tuple)) and v.elts and all(isinstance(x, ast.Constant) and isinstance(x.value, (int, float)) for x in v.elts):
+            from .effects import Effects
+            eff = self.project.__dict__.setdefault("_effects", None) or Effects(self.project)
+            self.project._effects = eff
+            mutated = any(d == q for sm in eff.sum.values() for d, _ in sm.module_writes)
+            if not mutated:
+                cache[q] = ("list", tuple(K(x.value) for x in v.elts))
+        return cache[q]
 
     def is_pure_repo(self, q: str) -> bool:
         return q.startswith(("cm_colors.core.conversions.", "cm_colors.core.contrast.", "cm_colors.core.color_metrics.", "cm_colors.core.color_parser."))
@@ -1046,8 +1090,13 @@ class Analysis:
             backs.append(bk)
         # candidates
         cands: Set[tuple] = set()
+        per_pred: List[Set[tuple]] = []
+        sats: List[Set[tuple]] = []
         for st, sg, fn0, bk in zip(states, sigmas, stale_fns, backs):
+            mine: Set[tuple] = set()
+            per_pred.append(mine)
             sat = self.saturate(st)
+            sats.append(sat)
             fn = None
             if fn0 is not None:
                 # the phi symbols of J itself are being (re)defined right now: what the renaming produces is
@@ -1061,6 +1110,7 @@ class Analysis:
             for f in sat:
                 for f2 in self.rename(f, sg, fn):
                     cands.add(f2)
+                    mine.add(f2)
             for v in phi_vars:
                 t = st.env.get(v, ("unbound", v))
                 ph = ("phi", J, v)
@@ -1095,6 +1145,28 @@ class Analysis:
             for b in bool_phis:
                 if not mentions(c, lambda s: s == b):
                     cands.add(("imp", ("truthy", b), c))
+                    cands.add(("imp", ("falsy", b), c))
+        # path conditions: an atom g known on one predecessor whose negation every other predecessor entails
+        # (the two arms of a branch) guards that predecessor's own facts: g => c
+        if 2 <= len(states) <= 4:
+            provers0 = [st.prover() for st in states]
+            for i, (st, mine) in enumerate(zip(states, per_pred)):
+                gs = []
+                for g in st.facts:
+                    if g[0] not in ("truthy", "falsy", "ge", "gt", "eq", "ne", "isnone", "notnone"):
+                        continue
+                    if stale_fns[i] is not None and mentions(g, stale_fns[i]):
+                        continue
+                    ng = neg(g)
+                    if ng is None or any(is_term(x) and x[0] == "phi" and x[1] == J for x in subterms(g)):
+                        continue
+                    if all(provers0[j].entails(ng) for j in range(len(states)) if j != i):
+                        gs.append(g)
+                for g in gs[:4]:
+                    for c in list(mine)[:300]:
+                        if c[0] in ("imp", "boolean") or trivial(c) or c == g:
+                            continue
+                        cands.add(("imp", g, c))
         # prune: trivial candidates, and candidates about site symbols no variable holds any more
         live = set()
         for t in new_env.values():
@@ -1232,6 +1304,16 @@ class Analysis:
                     out.add(("ge", a, b))
                 elif r is False:
                     out.add(("ge", a, b))
+        # flags that guard implications: is their value forced?
+        flags = set()
+        for f in pr.facts:
+            if f[0] == "imp" and f[1][0] in ("truthy", "falsy") and is_term(f[1][1]):
+                flags.add(f[1][1])
+        for b in flags:
+            for k in ("truthy", "falsy"):
+                a = (k, b)
+                if a not in out and pr.entails(a):
+                    out.add(a)
         # chain facts for values held by variables
         if self.chain_goal is not None:
             o, bg = self.chain_goal
